@@ -3,6 +3,7 @@
   (towards C07_content and the protocol half of C07_cut).
 -/
 import Nq.Netstring
+import Nq.Spec.C07
 import Nq.Lemmas.C07Qq
 
 namespace Nq.Netstring
@@ -380,6 +381,502 @@ theorem msg_shape (cfg : Cfg) (inp : Bytes) (h : (msg cfg inp).stop = none) :
                               intro p _; split <;> rfl
                             simp [e1]
 
+theorem dosBody_false (len bto : Nat) (c : Byte) (p : Bytes) :
+    dosBody (len + 1) false bto (c :: p) =
+      (if c = CR ∧ len > 0 then dosBody len true bto p else (dosBody len false (ovfDec bto) p).pre (ovfOps bto c)) := by
+  rw [dosBody]
+
+theorem dosBody_true (len bto : Nat) (c : Byte) (p : Bytes) :
+    dosBody (len + 1) true bto (c :: p) =
+      (if c = LF then (dosBody len false (ovfDec bto) p).pre (ovfOps bto LF)
+       else if c = CR ∧ len > 0 then (dosBody len true (ovfDec bto) p).pre (ovfOps bto CR)
+       else (dosBody len false (ovfDec (ovfDec bto)) p).pre (ovfOps bto CR ++ ovfOps (ovfDec bto) c)) := by
+  rw [dosBody]
+
+/-! #### what the two body loops store -/
+
+theorem unixBody_stored : ∀ (len : Nat) (p r : Bytes), (unixBody len p).rest = some r →
+    putBytes (unixBody len p).ops = p.take len ∧ r = p.drop len
+  | 0, p, r, h => by simp [unixBody] at h ⊢; simp [putBytes, h]
+  | _ + 1, [], r, h => by simp [unixBody] at h
+  | len + 1, c :: p, r, h => by
+    simp only [unixBody, pre_rest, pre_ops] at h ⊢
+    have ih := unixBody_stored len p r h
+    simp [putBytes, ih.1, ih.2]
+
+open Nq.Spec.C07 (undos) in
+theorem undos_cons (c : Byte) (l : Bytes) (h : c ≠ CR ∨ l = []) : undos (c :: l) = c :: undos l := by
+  cases l with
+  | nil => simp [undos]
+  | cons d r =>
+    rcases h with h | h
+    · have : ¬ (c = 13 ∧ d = 10) := fun hh => h hh.1
+      simp [undos, this]
+    · simp at h
+
+open Nq.Spec.C07 (undos) in
+/-- the CR-mode loop stores the framed bytes with every CR LF replaced by LF (`Spec.undos`); a CR held back by the
+    inner loop counts as the first byte -/
+theorem dosBody_stored : ∀ (len : Nat) (pend : Bool) (bto : Nat) (p r : Bytes), (pend = true → len > 0) →
+    (dosBody len pend bto p).rest = some r →
+    putBytes (dosBody len pend bto p).ops = (if pend then undos (CR :: p.take len) else undos (p.take len)) ∧ r = p.drop len
+  | 0, pend, _, p, r, hp, h => by
+    cases pend
+    · simp [dosBody] at h ⊢; simp [putBytes, undos, h]
+    · exact absurd (hp rfl) (by omega)
+  | _ + 1, _, _, [], r, _, h => by simp [dosBody] at h
+  | len + 1, false, bto, c :: p, r, _, h => by
+    rw [dosBody_false] at h ⊢
+    by_cases hc : c = CR ∧ len > 0
+    · simp only [hc, and_self, ↓reduceIte] at h ⊢
+      have ih := dosBody_stored len true bto p r (fun _ => hc.2) h
+      simp only [↓reduceIte] at ih
+      simp [ih.1, ih.2, hc.1]
+    · simp only [hc, ↓reduceIte, pre_rest, pre_ops] at h ⊢
+      have ih := dosBody_stored len false (ovfDec bto) p r (by simp) h
+      simp only [Bool.false_eq_true, ↓reduceIte] at ih
+      rw [putBytes_append, ovfOps_bytes, ih.1]
+      refine ⟨?_, by simp [ih.2]⟩
+      simp only [List.take_succ_cons, Bool.false_eq_true, ↓reduceIte]
+      rw [undos_cons]
+      · rfl
+      · by_cases h1 : c = CR
+        · right
+          have : len = 0 := by
+            cases len with
+            | zero => rfl
+            | succ n => exact absurd ⟨h1, by omega⟩ hc
+          simp [this]
+        · left; exact h1
+  | len + 1, true, bto, c :: p, r, _, h => by
+    rw [dosBody_true] at h ⊢
+    by_cases hc : c = LF
+    · simp only [hc, ↓reduceIte, pre_rest, pre_ops] at h ⊢
+      have ih := dosBody_stored len false (ovfDec bto) p r (by simp) h
+      simp only [Bool.false_eq_true, ↓reduceIte] at ih
+      rw [putBytes_append, ovfOps_bytes, ih.1]
+      refine ⟨?_, by simp [ih.2]⟩
+      simp [undos, CR, LF]
+    · simp only [hc, ↓reduceIte] at h ⊢
+      by_cases h2 : c = CR ∧ len > 0
+      · simp only [h2, and_self, ↓reduceIte, pre_rest, pre_ops] at h ⊢
+        have ih := dosBody_stored len true (ovfDec bto) p r (fun _ => h2.2) h
+        simp only [↓reduceIte] at ih
+        rw [putBytes_append, ovfOps_bytes, ih.1]
+        refine ⟨?_, by simp [ih.2]⟩
+        simp [undos, CR, h2.1]
+      · simp only [h2, ↓reduceIte, pre_rest, pre_ops] at h ⊢
+        have ih := dosBody_stored len false (ovfDec (ovfDec bto)) p r (by simp) h
+        simp only [Bool.false_eq_true, ↓reduceIte] at ih
+        rw [putBytes_append, putBytes_append, ovfOps_bytes, ovfOps_bytes, ih.1]
+        refine ⟨?_, by simp [ih.2]⟩
+        have hclf : ¬ ((13 : Byte) = 13 ∧ c = 10) := fun hh => hc hh.2
+        simp only [List.take_succ_cons, ↓reduceIte, CR]
+        rw [show undos (13 :: c :: List.take len p) = 13 :: undos (c :: List.take len p) by
+          have hc' : ¬ c = 10 := hc
+          simp [undos, hc']]
+        rw [undos_cons]
+        · rfl
+        · by_cases h1 : c = CR
+          · right
+            have : len = 0 := by
+              cases len with
+              | zero => rfl
+              | succ n => exact absurd ⟨h1, by omega⟩ h2
+            simp [this]
+          · left; exact h1
+
+/-- the `stored` field is what the body loop put, whichever way the message ends -/
+theorem msg_stored_eq (cfg : Cfg) (inp : Bytes) (len : Nat) (c : Byte) (r1 : Bytes)
+    (h1 : Netstring.getlen Nq.Gen.C07.qmtpLenMax 0 inp = .ok len (c :: r1)) (hl : len ≠ 0) (hc : ¬ (c ≠ LF ∧ c ≠ CR)) :
+    (msg cfg inp).stored = putBytes (if c = CR then dosBody (len - 1) false (if cfg.databytes = 0 then 0 else cfg.databytes + 1) r1
+      else BodyRes.pre (if c = LF ∧ cfg.databytes ≠ 0 ∧ len - 1 > cfg.databytes then [QOp.fail] else [])
+        (unixBody (len - 1) r1)).ops := by
+  unfold msg
+  simp only [h1, hl, hc, ↓reduceIte]
+  repeat' split
+  all_goals rfl
+
+open Nq.Spec.C07 (undos) in
+/-- **decoded body.**  For a completely read message: the stored bytes are the `len - 1` framed bytes after the mode byte,
+    verbatim in LF mode and with CR LF → LF (`Spec.undos`) in CR mode -/
+theorem msg_decoded (cfg : Cfg) (inp : Bytes) (h : (msg cfg inp).stop = none) :
+    ∃ len c r1, Netstring.getlen Nq.Gen.C07.qmtpLenMax 0 inp = .ok len (c :: r1) ∧ len ≠ 0 ∧ (c = LF ∨ c = CR) ∧
+      (msg cfg inp).stored = (if c = CR then undos (r1.take (len - 1)) else r1.take (len - 1)) := by
+  have hm := h
+  unfold msg at h
+  cases h1 : Netstring.getlen Nq.Gen.C07.qmtpLenMax 0 inp with
+  | stop e r => simp [h1] at h
+  | ok len r0 =>
+    simp only [h1] at h
+    by_cases hl : len = 0
+    · simp [hl] at h
+    · simp only [hl, ↓reduceIte] at h
+      cases r0 with
+      | nil => simp at h
+      | cons c r1 =>
+        simp only at h
+        by_cases hc : c ≠ LF ∧ c ≠ CR
+        · simp [hc] at h
+        · simp only [hc, ↓reduceIte] at h
+          refine ⟨len, c, r1, rfl, hl, ?_, ?_⟩
+          · by_cases h1' : c = LF
+            · exact Or.inl h1'
+            · by_cases h2' : c = CR
+              · exact Or.inr h2'
+              · exact absurd ⟨h1', h2'⟩ hc
+          · rw [msg_stored_eq cfg inp len c r1 h1 hl hc]
+            by_cases hcr : c = CR
+            · simp only [hcr, ↓reduceIte] at h ⊢
+              cases hb : (dosBody (len - 1) false (if cfg.databytes = 0 then 0 else cfg.databytes + 1) r1).rest with
+              | none => simp [hb] at h
+              | some r2 =>
+                have := dosBody_stored (len - 1) false _ r1 r2 (by simp) hb
+                simpa using this.1
+            · simp only [hcr, ↓reduceIte] at h ⊢
+              cases hb : (unixBody (len - 1) r1).rest with
+              | none => simp [pre_rest, hb] at h
+              | some r2 =>
+                have := unixBody_stored (len - 1) r1 r2 hb
+                rw [pre_ops, putBytes_append, this.1]
+                split <;> simp [putBytes]
+
+/-! #### more input behind a complete message changes nothing but the unread remainder -/
+
+theorem getlen_ext (max : Nat) : ∀ (p : Bytes) (acc n : Nat) (r t : Bytes),
+    Netstring.getlen max acc p = .ok n r → Netstring.getlen max acc (p ++ t) = .ok n (r ++ t)
+  | [], _, _, _, _, h => by simp [Netstring.getlen] at h
+  | c :: p, acc, n, r, t, h => by
+    simp only [List.cons_append, Netstring.getlen] at h ⊢
+    split
+    · rename_i hc; simp [hc] at h; simp [h]
+    · rename_i hc
+      simp only [hc, ↓reduceIte] at h
+      split
+      · rename_i h2; simp [h2] at h
+      · rename_i h2
+        simp only [h2, ↓reduceIte] at h
+        split
+        · rename_i h3; simp [h3] at h
+        · rename_i h3
+          simp only [h3, ↓reduceIte] at h
+          exact getlen_ext max p _ n r t h
+
+theorem getcomma_ext (p : Bytes) (u : Unit) (r t : Bytes) (h : Netstring.getcomma p = .ok u r) :
+    Netstring.getcomma (p ++ t) = .ok u (r ++ t) := by
+  cases p with
+  | nil => simp [Netstring.getcomma] at h
+  | cons c p =>
+    simp only [List.cons_append, Netstring.getcomma] at h ⊢
+    split
+    · rename_i hc; simp [hc] at h; simp [h]
+    · rename_i hc; simp [hc] at h
+
+theorem getbytes_ext (n : Nat) (p a r t : Bytes) (h : getbytes n p = .ok a r) :
+    getbytes n (p ++ t) = .ok a (r ++ t) := by
+  unfold getbytes at h ⊢
+  split at h
+  · simp at h
+  · rename_i hl
+    have hl' : ¬ (p ++ t).length < n := by simp; omega
+    simp only [hl', ↓reduceIte]
+    simp at h
+    have hn : n ≤ p.length := by omega
+    rw [List.take_append_of_le_length hn, List.drop_append_of_le_length hn, h.1, h.2]
+
+theorem unixBody_ext : ∀ (len : Nat) (p r t : Bytes), (unixBody len p).rest = some r →
+    unixBody len (p ++ t) = { unixBody len p with rest := some (r ++ t) }
+  | 0, p, r, t, h => by simp [unixBody] at h ⊢; simp [h]
+  | _ + 1, [], r, t, h => by simp [unixBody] at h
+  | len + 1, c :: p, r, t, h => by
+    simp only [List.cons_append, unixBody, pre_rest] at h ⊢
+    rw [unixBody_ext len p r t h]
+    rfl
+
+theorem dosBody_ext : ∀ (len : Nat) (pend : Bool) (bto : Nat) (p r t : Bytes), (dosBody len pend bto p).rest = some r →
+    dosBody len pend bto (p ++ t) = { dosBody len pend bto p with rest := some (r ++ t) }
+  | 0, _, _, p, r, t, h => by simp [dosBody] at h ⊢; simp [h]
+  | _ + 1, _, _, [], r, t, h => by simp [dosBody] at h
+  | len + 1, false, bto, c :: p, r, t, h => by
+    simp only [List.cons_append]
+    rw [dosBody_false] at h ⊢
+    rw [dosBody_false]
+    by_cases hc : c = CR ∧ len > 0
+    · simp only [hc, and_self, ↓reduceIte] at h ⊢
+      exact dosBody_ext len true bto p r t h
+    · simp only [hc, ↓reduceIte, pre_rest] at h ⊢
+      rw [dosBody_ext len false _ p r t h]; rfl
+  | len + 1, true, bto, c :: p, r, t, h => by
+    simp only [List.cons_append]
+    rw [dosBody_true] at h ⊢
+    rw [dosBody_true]
+    by_cases hc : c = LF
+    · simp only [hc, ↓reduceIte, pre_rest] at h ⊢
+      rw [dosBody_ext len false _ p r t h]; rfl
+    · simp only [hc, ↓reduceIte] at h ⊢
+      by_cases h2 : c = CR ∧ len > 0
+      · simp only [h2, and_self, ↓reduceIte, pre_rest] at h ⊢
+        rw [dosBody_ext len true _ p r t h]; rfl
+      · simp only [h2, ↓reduceIte, pre_rest] at h ⊢
+        rw [dosBody_ext len false _ p r t h]; rfl
+
+theorem rcptLen_ext (max : Nat) : ∀ (p : Bytes) (big acc : Nat) (v : Nat × Nat) (r t : Bytes),
+    rcptLen max big acc p = .ok v r → rcptLen max big acc (p ++ t) = .ok v (r ++ t)
+  | [], big, acc, v, r, t, h => by cases big <;> simp [rcptLen] at h
+  | c :: p, 0, acc, v, r, t, h => by simp [rcptLen] at h
+  | c :: p, big + 1, acc, v, r, t, h => by
+    simp only [List.cons_append, rcptLen] at h ⊢
+    split
+    · rename_i hc; simp [hc] at h; simp [h]
+    · rename_i hc
+      simp only [hc, ↓reduceIte] at h
+      split
+      · rename_i h2; simp [h2] at h
+      · rename_i h2
+        simp only [h2, ↓reduceIte] at h
+        split
+        · rename_i h3; simp [h3] at h
+        · rename_i h3
+          simp only [h3, ↓reduceIte] at h
+          exact rcptLen_ext max p big _ v r t h
+
+theorem RL.pre_stop (o : List QOp) (f : Byte) (a : List Bytes) (r : RL) : (r.pre o f a).stop = r.stop := rfl
+
+theorem rcptLoop_ext (cfg : Cfg) : ∀ (fuel fuel' big : Nat) (p t : Bytes), fuel ≤ fuel' →
+    (rcptLoop cfg fuel big p).stop = none →
+    rcptLoop cfg fuel' big (p ++ t) = { rcptLoop cfg fuel big p with rest := (rcptLoop cfg fuel big p).rest ++ t }
+  | 0, _, _, _, _, _, h => by simp [rcptLoop] at h
+  | fuel + 1, 0, _, _, _, h, _ => by omega
+  | fuel + 1, fuel' + 1, 0, p, t, _, _ => by simp [rcptLoop]
+  | fuel + 1, fuel' + 1, big + 1, p, t, hle, h => by
+    simp only [rcptLoop] at h ⊢
+    cases h1 : rcptLen Nq.Gen.C07.qmtpLenMax (big + 1) 0 p with
+    | stop e r => simp [h1] at h
+    | ok v r1 =>
+      obtain ⟨len, big1⟩ := v
+      simp only [h1] at h ⊢
+      rw [rcptLen_ext _ p (big + 1) 0 _ r1 t h1]
+      simp only
+      split
+      · rename_i hl; simp [hl] at h
+      · rename_i hl
+        simp only [hl, ↓reduceIte] at h
+        cases h2 : getbytes len r1 with
+        | stop e r => simp [h2] at h
+        | ok a r2 =>
+          simp only [h2] at h ⊢
+          rw [getbytes_ext len r1 a r2 t h2]
+          simp only
+          cases h3 : Netstring.getcomma r2 with
+          | stop e r => simp [h3] at h
+          | ok u r3 =>
+            simp only [h3] at h ⊢
+            rw [getcomma_ext r2 u r3 t h3]
+            simp only
+            rw [RL.pre_stop] at h
+            rw [rcptLoop_ext cfg fuel fuel' _ r3 t (by omega) h]
+            rfl
+
+theorem msg_ext (cfg : Cfg) (p t : Bytes) (h : (msg cfg p).stop = none) :
+    msg cfg (p ++ t) = { msg cfg p with rest := (msg cfg p).rest ++ t } := by
+  unfold msg at h ⊢
+  cases h1 : Netstring.getlen Nq.Gen.C07.qmtpLenMax 0 p with
+  | stop e r => simp [h1] at h
+  | ok len r0 =>
+    simp only [h1] at h ⊢
+    rw [getlen_ext _ p 0 len r0 t h1]
+    simp only
+    by_cases hl : len = 0
+    · simp [hl] at h
+    · simp only [hl, ↓reduceIte] at h ⊢
+      cases r0 with
+      | nil => simp at h
+      | cons c r1 =>
+        simp only [List.cons_append] at h ⊢
+        by_cases hc : c ≠ LF ∧ c ≠ CR
+        · simp [hc] at h
+        · simp only [hc, ↓reduceIte] at h ⊢
+          -- the body
+          have hbody : ∀ r2, (if c = CR then dosBody (len - 1) false (if cfg.databytes = 0 then 0 else cfg.databytes + 1) r1
+              else BodyRes.pre (if c = LF ∧ cfg.databytes ≠ 0 ∧ len - 1 > cfg.databytes then [QOp.fail] else [])
+                (unixBody (len - 1) r1)).rest = some r2 →
+              (if c = CR then dosBody (len - 1) false (if cfg.databytes = 0 then 0 else cfg.databytes + 1) (r1 ++ t)
+              else BodyRes.pre (if c = LF ∧ cfg.databytes ≠ 0 ∧ len - 1 > cfg.databytes then [QOp.fail] else [])
+                (unixBody (len - 1) (r1 ++ t))) =
+              { (if c = CR then dosBody (len - 1) false (if cfg.databytes = 0 then 0 else cfg.databytes + 1) r1
+              else BodyRes.pre (if c = LF ∧ cfg.databytes ≠ 0 ∧ len - 1 > cfg.databytes then [QOp.fail] else [])
+                (unixBody (len - 1) r1)) with rest := some (r2 ++ t) } := by
+            intro r2 hr
+            split at hr
+            · rename_i hcr; simp only [hcr, ↓reduceIte]; exact dosBody_ext _ _ _ _ _ _ hr
+            · rename_i hcr; simp only [hcr, ↓reduceIte]
+              rw [pre_rest] at hr
+              rw [unixBody_ext _ _ _ _ hr]; rfl
+          generalize (if c = CR then dosBody (len - 1) false (if cfg.databytes = 0 then 0 else cfg.databytes + 1) r1
+              else BodyRes.pre (if c = LF ∧ cfg.databytes ≠ 0 ∧ len - 1 > cfg.databytes then [QOp.fail] else [])
+                (unixBody (len - 1) r1)) = b at h hbody ⊢
+          cases h2 : b.rest with
+          | none => simp [h2] at h
+          | some r2 =>
+            simp only [h2] at h ⊢
+            rw [hbody r2 h2]
+            simp only
+            cases h3 : Netstring.getcomma r2 with
+            | stop e r => simp [h3] at h
+            | ok u3 r3 =>
+              simp only [h3] at h ⊢
+              rw [getcomma_ext r2 u3 r3 t h3]
+              simp only
+              cases h4 : Netstring.getlen Nq.Gen.C07.qmtpLenMax 0 r3 with
+              | stop e r => simp [h4] at h
+              | ok slen r4 =>
+                simp only [h4] at h ⊢
+                rw [getlen_ext _ r3 0 slen r4 t h4]
+                simp only
+                cases h5 : getbytes slen r4 with
+                | stop e r => simp [h5] at h
+                | ok sraw r5 =>
+                  simp only [h5] at h ⊢
+                  rw [getbytes_ext slen r4 sraw r5 t h5]
+                  simp only
+                  cases h6 : Netstring.getcomma r5 with
+                  | stop e r => simp [h6] at h
+                  | ok u6 r6 =>
+                    simp only [h6] at h ⊢
+                    rw [getcomma_ext r5 u6 r6 t h6]
+                    simp only
+                    cases h7 : Netstring.getlen Nq.Gen.C07.qmtpLenMax 0 r6 with
+                    | stop e r => simp [h7] at h
+                    | ok biglen r7 =>
+                      simp only [h7] at h ⊢
+                      rw [getlen_ext _ r6 0 biglen r7 t h7]
+                      simp only
+                      cases h8 : (rcptLoop cfg (r7.length + 1) biglen r7).stop with
+                      | some e => simp [h8] at h
+                      | none =>
+                        simp only [h8] at h
+                        rw [rcptLoop_ext cfg (r7.length + 1) ((r7 ++ t).length + 1) biglen r7 t (by simp) h8]
+                        simp only [h8]
+                        cases h9 : Netstring.getcomma (rcptLoop cfg (r7.length + 1) biglen r7).rest with
+                        | stop e r => simp [h9] at h
+                        | ok u9 r8 =>
+                          rw [getcomma_ext _ u9 r8 t h9]
+
+theorem rcptLoop_env (cfg : Cfg) : ∀ (fuel big : Nat) (inp : Bytes),
+    ∀ op ∈ (rcptLoop cfg fuel big inp).ops, (match op with | .to _ => true | .fail => true | _ => false) = true
+  | 0, _, _ => by simp [rcptLoop]
+  | _ + 1, 0, _ => by simp [rcptLoop]
+  | fuel + 1, big + 1, inp => by
+    simp only [rcptLoop]
+    split
+    · simp
+    · rename_i len big1 r1 _
+      split
+      · simp
+      · split
+        · simp
+        · rename_i a r2 _
+          split
+          · split <;> simp
+          · rename_i r3 _
+            have ih := rcptLoop_env cfg fuel (big1 - (len + 1)) r3
+            rw [RL.pre_ops]
+            intro op hop
+            simp only [List.mem_append] at hop
+            rcases hop with hop | hop
+            · split at hop <;> simp at hop; subst hop; rfl
+            · exact ih op hop
+
+/-- the message was not read completely: the calls have the shape of `okOps` (in particular no `qmail_close`) -/
+theorem msg_stopped (cfg : Cfg) (inp : Bytes) (h : (msg cfg inp).stop ≠ none) :
+    okOps false (msg cfg inp).ops = true := by
+  unfold msg at h ⊢
+  cases h1 : Netstring.getlen Nq.Gen.C07.qmtpLenMax 0 inp with
+  | stop e r => simp [okOps]
+  | ok len r0 =>
+    simp only [h1] at h ⊢
+    by_cases hl : len = 0
+    · simp [hl, okOps]
+    · simp only [hl, ↓reduceIte] at h ⊢
+      cases r0 with
+      | nil => simp [okOps]
+      | cons c r1 =>
+        simp only at h ⊢
+        by_cases hc : c ≠ LF ∧ c ≠ CR
+        · simp [hc, okOps]
+        · simp only [hc, ↓reduceIte] at h ⊢
+          have hbpf : ∀ op ∈ (if c = CR then dosBody (len - 1) false (if cfg.databytes = 0 then 0 else cfg.databytes + 1) r1
+              else BodyRes.pre (if c = LF ∧ cfg.databytes ≠ 0 ∧ len - 1 > cfg.databytes then [QOp.fail] else [])
+                (unixBody (len - 1) r1)).ops, pf op = true := by
+            intro op hop
+            split at hop
+            · exact dosBody_pf _ _ _ _ op hop
+            · rw [pre_ops, List.mem_append] at hop
+              rcases hop with hop | hop
+              · split at hop <;> simp at hop; subst hop; rfl
+              · exact unixBody_pf _ _ op hop
+          generalize (if c = CR then dosBody (len - 1) false (if cfg.databytes = 0 then 0 else cfg.databytes + 1) r1
+              else BodyRes.pre (if c = LF ∧ cfg.databytes ≠ 0 ∧ len - 1 > cfg.databytes then [QOp.fail] else [])
+                (unixBody (len - 1) r1)) = b at h hbpf ⊢
+          have hp1 : ∀ op ∈ recvOps cfg ++ b.ops, pf op = true := by
+            intro op hop; simp only [List.mem_append] at hop
+            rcases hop with hop | hop
+            · exact pf_map_put _ op hop
+            · exact hbpf op hop
+          have k1 : okOps false (recvOps cfg ++ b.ops) = true := by
+            simpa [okOps] using okOps_pf_append _ [] (Smtp.pf_match hp1)
+          cases h2 : b.rest with
+          | none => simpa using k1
+          | some r2 =>
+            simp only [h2] at h ⊢
+            cases h3 : Netstring.getcomma r2 with
+            | stop e r => simpa using k1
+            | ok u3 r3 =>
+              simp only [h3] at h ⊢
+              cases h4 : Netstring.getlen Nq.Gen.C07.qmtpLenMax 0 r3 with
+              | stop e r => simpa using k1
+              | ok slen r4 =>
+                simp only [h4] at h ⊢
+                cases h5 : getbytes slen r4 with
+                | stop e r => simpa using k1
+                | ok sraw r5 =>
+                  simp only [h5] at h ⊢
+                  cases h6 : Netstring.getcomma r5 with
+                  | stop e r => simpa using k1
+                  | ok u6 r6 =>
+                    simp only [h6] at h ⊢
+                    have k2 : ∀ (x : List QOp), (∀ op ∈ x, (match op with | .to _ => true | .fail => true | _ => false) = true) →
+                        okOps false (recvOps cfg ++ b.ops ++ [QOp.from_ (if slen ≥ Nq.Gen.C07.qmtpAddrMax then [] else sraw)] ++
+                          (if (!decide (slen ≥ Nq.Gen.C07.qmtpAddrMax) && !sraw.contains 0) = true then [] else [QOp.fail]) ++ x) = true := by
+                      intro x hx
+                      rw [List.append_assoc, List.append_assoc, okOps_pf_append _ _ (Smtp.pf_match hp1)]
+                      have := okOps_env_append x [] hx
+                      cases hb : (!decide (slen ≥ Nq.Gen.C07.qmtpAddrMax) && !sraw.contains 0) <;>
+                        simpa [okOps, hb] using this
+                    cases h7 : Netstring.getlen Nq.Gen.C07.qmtpLenMax 0 r6 with
+                    | stop e r => simpa using k2 [] (by simp)
+                    | ok biglen r7 =>
+                      simp only [h7] at h ⊢
+                      have k3 := k2 _ (rcptLoop_env cfg (r7.length + 1) biglen r7)
+                      cases h8 : (rcptLoop cfg (r7.length + 1) biglen r7).stop with
+                      | some e => simpa using k3
+                      | none =>
+                        simp only [h8] at h ⊢
+                        cases h9 : Netstring.getcomma (rcptLoop cfg (r7.length + 1) biglen r7).rest with
+                        | stop e r => simpa using k3
+                        | ok u9 r8 => simp [h9] at h
+
+/-- **cut, QMTP.**  If a message is complete after `k` bytes, qmail-qmtpd does not get to `qmail_close` (nor to its
+    replies) on any shorter prefix -/
+theorem msg_prefix (cfg : Cfg) (inp : Bytes) (h : (msg cfg inp).stop = none) (j : Nat)
+    (hj : j < inp.length - (msg cfg inp).rest.length) : (msg cfg (inp.take j)).stop ≠ none := by
+  intro hp
+  have := msg_ext cfg (inp.take j) (inp.drop j) hp
+  rw [List.take_append_drop] at this
+  rw [this] at hj
+  simp at hj
+  omega
+
 end Qmtp
 
 /-! ### qmail-qmqpd -/
@@ -479,6 +976,241 @@ theorem parse_shape (cfg : Cfg) (inp : Bytes) (h : (parse cfg inp).stop = none) 
                 · simp [putBytes_append, recvOps, putBytes_map_put, receivedPieces_flatten]
                 · rw [stream_append, hrl.2]
                   cases sok <;> simp [stream]
+
+/-! #### more input behind a complete request changes nothing but the unread remainder -/
+
+theorem getlen_ext (max : Nat) : ∀ (p : Bytes) (bl acc : Nat) (v : Nat × Nat) (r t : Bytes),
+    getlen max bl acc p = .ok v r → getlen max bl acc (p ++ t) = .ok v (r ++ t)
+  | [], bl, acc, v, r, t, h => by cases bl <;> simp [getlen] at h
+  | c :: p, 0, acc, v, r, t, h => by simp [getlen] at h
+  | c :: p, bl + 1, acc, v, r, t, h => by
+    simp only [List.cons_append]
+    unfold getlen at h ⊢
+    split
+    · rename_i hc; simp only [hc, ↓reduceIte] at h; simp at h; simp [h]
+    · rename_i hc
+      simp only [hc, ↓reduceIte] at h
+      split
+      · rename_i h2; simp [h2] at h
+      · rename_i h2
+        simp only [h2, ↓reduceIte] at h
+        split
+        · rename_i h3; simp [h3] at h
+        · rename_i h3
+          simp only [h3, ↓reduceIte] at h
+          exact getlen_ext max p bl _ v r t h
+
+theorem getn_ext : ∀ (n bl : Nat) (p : Bytes) (v : Bytes × Nat) (r t : Bytes),
+    getn n bl p = .ok v r → getn n bl (p ++ t) = .ok v (r ++ t)
+  | 0, bl, p, v, r, t, h => by simp [getn] at h ⊢; simp [h]
+  | n + 1, 0, p, v, r, t, h => by simp [getn] at h
+  | n + 1, bl + 1, [], v, r, t, h => by simp [getn] at h
+  | n + 1, bl + 1, c :: p, v, r, t, h => by
+    simp only [List.cons_append]
+    unfold getn at h ⊢
+    cases h2 : getn n bl p with
+    | stop e r' => simp [h2] at h
+    | ok v2 r2 =>
+      obtain ⟨bs, bl'⟩ := v2
+      simp only [h2] at h
+      rw [getn_ext n bl p (bs, bl') r2 t h2]
+      simp at h ⊢
+      simp [h]
+
+theorem getcomma_ext (bl : Nat) (p : Bytes) (v : Nat) (r t : Bytes) (h : getcomma bl p = .ok v r) :
+    getcomma bl (p ++ t) = .ok v (r ++ t) := by
+  cases bl with
+  | zero => simp [getcomma] at h
+  | succ bl =>
+    cases p with
+    | nil => simp [getcomma] at h
+    | cons c p =>
+      simp only [List.cons_append, getcomma] at h ⊢
+      split
+      · rename_i hc; simp [hc] at h; simp [h]
+      · rename_i hc; simp [hc] at h
+
+theorem getbuf_ext (bl : Nat) (p : Bytes) (v : Bytes × Bool × Nat) (r t : Bytes) (h : getbuf bl p = .ok v r) :
+    getbuf bl (p ++ t) = .ok v (r ++ t) := by
+  unfold getbuf at h ⊢
+  cases h1 : getlen Nq.Gen.C07.qmqpLenMax bl 0 p with
+  | stop e r' => simp [h1] at h
+  | ok v1 r1 =>
+    obtain ⟨len, bl1⟩ := v1
+    simp only [h1] at h
+    rw [getlen_ext _ p bl 0 _ r1 t h1]
+    simp only
+    cases h2 : getn len bl1 r1 with
+    | stop e r' => simp [h2] at h
+    | ok v2 r2 =>
+      obtain ⟨bs, bl2⟩ := v2
+      simp only [h2] at h
+      rw [getn_ext len bl1 r1 _ r2 t h2]
+      simp only
+      cases h3 : getcomma bl2 r2 with
+      | stop e r' => simp [h3] at h
+      | ok bl3 r3 =>
+        simp only [h3] at h
+        rw [getcomma_ext bl2 r2 bl3 r3 t h3]
+        simp only
+        split
+        · rename_i hl; simp [hl] at h; simp [h]
+        · rename_i hl; simp [hl] at h; simp [h]
+
+theorem body_ext : ∀ (len bl : Nat) (p : Bytes) (bl' : Nat) (r t : Bytes),
+    (body len bl p).res = .ok bl' r → body len bl (p ++ t) = ⟨(body len bl p).ops, .ok bl' (r ++ t)⟩
+  | 0, bl, p, bl', r, t, h => by simp [body] at h ⊢; simp [h]
+  | len + 1, 0, p, bl', r, t, h => by simp [body] at h
+  | len + 1, bl + 1, [], bl', r, t, h => by simp [body] at h
+  | len + 1, bl + 1, c :: p, bl', r, t, h => by
+    simp only [List.cons_append]
+    simp only [body] at h ⊢
+    rw [body_ext len bl p bl' r t h]
+
+theorem rcptLoop_ext : ∀ (fuel fuel' bl : Nat) (p t : Bytes), fuel ≤ fuel' →
+    (rcptLoop fuel bl p).stop = none →
+    rcptLoop fuel' bl (p ++ t) = { rcptLoop fuel bl p with rest := (rcptLoop fuel bl p).rest ++ t }
+  | 0, _, _, _, _, _, h => by simp [rcptLoop] at h
+  | fuel + 1, 0, _, _, _, h, _ => by omega
+  | fuel + 1, fuel' + 1, 0, p, t, _, _ => by simp [rcptLoop]
+  | fuel + 1, fuel' + 1, bl + 1, p, t, hle, h => by
+    simp only [rcptLoop] at h ⊢
+    cases h1 : getbuf (bl + 1) p with
+    | stop e r => simp [h1] at h
+    | ok v r1 =>
+      obtain ⟨a, ok, bl1⟩ := v
+      simp only [h1] at h ⊢
+      rw [getbuf_ext (bl + 1) p _ r1 t h1]
+      simp only
+      have hs : (rcptLoop fuel bl1 r1).stop = none := by
+        split at h <;> simpa using h
+      rw [rcptLoop_ext fuel fuel' bl1 r1 t (by omega) hs]
+      split <;> rfl
+
+theorem parse_ext (cfg : Cfg) (p t : Bytes) (h : (parse cfg p).stop = none) :
+    parse cfg (p ++ t) = { parse cfg p with rest := (parse cfg p).rest ++ t } := by
+  unfold parse at h ⊢
+  cases h1 : getlen Nq.Gen.C07.qmqpLenMax Nq.Gen.C07.qmqpOuterDigits 0 p with
+  | stop e r => simp [h1] at h
+  | ok v1 r0 =>
+    obtain ⟨outer, x1⟩ := v1
+    simp only [h1] at h ⊢
+    rw [getlen_ext _ p _ 0 _ r0 t h1]
+    simp only
+    cases h2 : getlen Nq.Gen.C07.qmqpLenMax outer 0 r0 with
+    | stop e r => simp [h2] at h
+    | ok v2 r1 =>
+      obtain ⟨len, bl1⟩ := v2
+      simp only [h2] at h ⊢
+      rw [getlen_ext _ r0 _ 0 _ r1 t h2]
+      simp only
+      cases h3 : (body len bl1 r1).res with
+      | stop e r => simp [h3] at h
+      | ok bl2 r2 =>
+        simp only [h3] at h ⊢
+        rw [body_ext len bl1 r1 bl2 r2 t h3]
+        simp only
+        cases h4 : getcomma bl2 r2 with
+        | stop e r => simp [h4] at h
+        | ok bl3 r3 =>
+          simp only [h4] at h ⊢
+          rw [getcomma_ext bl2 r2 bl3 r3 t h4]
+          simp only
+          cases h5 : getbuf bl3 r3 with
+          | stop e r => simp [h5] at h
+          | ok v5 r4 =>
+            obtain ⟨s, sok, bl4⟩ := v5
+            simp only [h5] at h ⊢
+            rw [getbuf_ext bl3 r3 _ r4 t h5]
+            simp only
+            cases h6 : (rcptLoop (r4.length + 1) bl4 r4).stop with
+            | some e => simp [h6] at h
+            | none =>
+              simp only [h6] at h
+              rw [rcptLoop_ext (r4.length + 1) ((r4 ++ t).length + 1) bl4 r4 t (by simp) h6]
+              simp only [h6]
+              cases h7 : getcomma 1 (rcptLoop (r4.length + 1) bl4 r4).rest with
+              | stop e r => simp [h7] at h
+              | ok u r8 =>
+                rw [getcomma_ext 1 _ u r8 t h7]
+
+theorem rcptLoop_env : ∀ (fuel bl : Nat) (inp : Bytes),
+    ∀ op ∈ (rcptLoop fuel bl inp).ops, (match op with | .to _ => true | .fail => true | _ => false) = true
+  | 0, _, _ => by simp [rcptLoop]
+  | _ + 1, 0, _ => by simp [rcptLoop]
+  | fuel + 1, bl + 1, inp => by
+    simp only [rcptLoop]
+    split
+    · simp
+    · rename_i a ok bl1 r1 _
+      have ih := rcptLoop_env fuel bl1 r1
+      split
+      · intro op hop; simp only [List.mem_cons] at hop
+        rcases hop with rfl | hop
+        · rfl
+        · exact ih op hop
+      · intro op hop; simp only [List.mem_cons] at hop
+        rcases hop with rfl | hop
+        · rfl
+        · exact ih op hop
+
+/-- the request was not read completely: no `qmail_close` among the calls, and they have the shape of `okOps` -/
+theorem parse_stopped (cfg : Cfg) (inp : Bytes) (h : (parse cfg inp).stop ≠ none) :
+    okOps false (parse cfg inp).ops = true := by
+  unfold parse at h ⊢
+  cases h1 : getlen Nq.Gen.C07.qmqpLenMax Nq.Gen.C07.qmqpOuterDigits 0 inp with
+  | stop e r => simp [okOps]
+  | ok v1 r0 =>
+    obtain ⟨outer, x1⟩ := v1
+    simp only [h1] at h ⊢
+    cases h2 : getlen Nq.Gen.C07.qmqpLenMax outer 0 r0 with
+    | stop e r => simp [okOps]
+    | ok v2 r1 =>
+      obtain ⟨len, bl1⟩ := v2
+      simp only [h2] at h ⊢
+      have hp1 : ∀ op ∈ recvOps cfg ++ (body len bl1 r1).ops, pf op = true := by
+        intro op hop; simp only [List.mem_append] at hop
+        rcases hop with hop | hop
+        · exact pf_map_put _ op hop
+        · exact body_pf _ _ _ op hop
+      have k1 : okOps false (recvOps cfg ++ (body len bl1 r1).ops) = true := by
+        simpa [okOps] using okOps_pf_append _ [] (Smtp.pf_match hp1)
+      cases h3 : (body len bl1 r1).res with
+      | stop e r => simpa using k1
+      | ok bl2 r2 =>
+        simp only [h3] at h ⊢
+        cases h4 : getcomma bl2 r2 with
+        | stop e r => simpa using k1
+        | ok bl3 r3 =>
+          simp only [h4] at h ⊢
+          cases h5 : getbuf bl3 r3 with
+          | stop e r => simpa using k1
+          | ok v5 r4 =>
+            obtain ⟨s, sok, bl4⟩ := v5
+            simp only [h5] at h ⊢
+            have k3 : okOps false (recvOps cfg ++ (body len bl1 r1).ops ++ (if sok = true then [QOp.from_ s] else [QOp.from_ [], QOp.fail]) ++
+                (rcptLoop (r4.length + 1) bl4 r4).ops) = true := by
+              rw [List.append_assoc, okOps_pf_append _ _ (Smtp.pf_match hp1)]
+              have := okOps_env_append (rcptLoop (r4.length + 1) bl4 r4).ops [] (rcptLoop_env _ _ _)
+              cases sok <;> simpa [okOps] using this
+            cases h6 : (rcptLoop (r4.length + 1) bl4 r4).stop with
+            | some e => simpa using k3
+            | none =>
+              simp only [h6] at h ⊢
+              cases h7 : getcomma 1 (rcptLoop (r4.length + 1) bl4 r4).rest with
+              | stop e r => simpa using k3
+              | ok u r8 => simp [h7] at h
+
+/-- **cut, QMQP.**  If the request is complete after `k` bytes, qmail-qmqpd does not get to `qmail_close` on any
+    shorter prefix -/
+theorem parse_prefix (cfg : Cfg) (inp : Bytes) (h : (parse cfg inp).stop = none) (j : Nat)
+    (hj : j < inp.length - (parse cfg inp).rest.length) : (parse cfg (inp.take j)).stop ≠ none := by
+  intro hp
+  have := parse_ext cfg (inp.take j) (inp.drop j) hp
+  rw [List.take_append_drop] at this
+  rw [this] at hj
+  simp at hj
+  omega
 
 end Qmqp
 
